@@ -20,9 +20,11 @@ func init() {
 			"(R5) MaintainRecordStates decision tables (hashmap, bbolt) by finite-valuation propagation over ordering representatives: physical removal only of invisible records, shadow-marking only of expired undeleted records, and Controller.Put's delete/put table; " +
 			"(R6) purge loops delete only behind prefix/not-deleted/match tests and terminate only at end of data, prefix end or cancellation (a batch boundary does not end the purge); (R7) siblings map 'absent' alike; (R8) the directory walk of the file-tree backend starts at a root that contains every file whose path extends the query prefix (the prefix path itself only when it was tested to be a directory, otherwise its parent or the base path), the callback's key-prefix filter being part of R3. " +
 			"(R9) lock pairing over the functions of package(s) database/storage/hashmap, database/storage/bbolt, database/storage/badger, database/storage/fstree, database/storage/sinkhole, database/storage, database/iterator: " + lockRuleText + ". " +
+			"(R10) no error returned by a storage backend, the controller or the database interface is discarded by code of the database packages (named exceptions: best-effort registry save). " +
 			"NOT decided: equivalence with a reference map over operation histories, operator semantics through the accessors, physical state after crashes.",
 		Rules: []ruleFn{c02R1, c02R2, c02R3, c02R4, c02R5, c02R6, c02R7, c02R8,
-			lockRuleFor("C02-R9", 9, []string{"database/storage/hashmap", "database/storage/bbolt", "database/storage/badger", "database/storage/fstree", "database/storage/sinkhole", "database/storage", "database/iterator"}, []string{}, map[string]string{})},
+			lockRuleFor("C02-R9", 9, []string{"database/storage/hashmap", "database/storage/bbolt", "database/storage/badger", "database/storage/fstree", "database/storage/sinkhole", "database/storage", "database/iterator"}, []string{}, map[string]string{}),
+			c02R10},
 	})
 }
 
@@ -803,4 +805,36 @@ func c02R8(c *Ctx, r *Report) {
 			r.OK(rule, cons, "walk root is the prefix path only when it is a directory, else its parent directory")
 		}
 	}
+}
+
+// storageCallee: the callee is a storage-layer operation whose error says whether the data operation happened.
+func storageCallee(cc *ssa.CallCommon) (string, bool) {
+	if cc.IsInvoke() {
+		if p := cc.Method.Pkg(); p != nil && strings.HasSuffix(p.Path(), "/database/storage") {
+			return "storage." + cc.Method.Name(), true
+		}
+		return "", false
+	}
+	n := calleeName(cc)
+	for _, pre := range []string{"database.Controller.", "database.Interface.", "database/storage/hashmap.HashMap.", "database/storage/bbolt.BBolt.",
+		"database/storage/badger.Badger.", "database/storage/fstree.FSTree.", "database/storage/sinkhole.Sinkhole.", "database/storage/fstree.writeFile",
+		"database.getController", "database.saveRegistry", "database.loadRegistry"} {
+		if strings.HasPrefix(n, pre) {
+			return n, true
+		}
+	}
+	return "", false
+}
+
+func c02R10(c *Ctx, r *Report) {
+	const rule = "C02-R10"
+	r.SetFloor(rule, 40)
+	var fns []*ssa.Function
+	for _, p := range []string{"database", "database/storage/hashmap", "database/storage/bbolt", "database/storage/badger", "database/storage/fstree", "database/storage/sinkhole", "database/storage"} {
+		fns = append(fns, c.FuncsIn(p)...)
+	}
+	errUseRule(c, r, rule, fns, func(fn *ssa.Function, cc *ssa.CallCommon) (string, bool) { return storageCallee(cc) }, map[string]string{
+		"database.Register / database.saveRegistry":         "best-effort persistence of the registry after a registration; the registration itself already succeeded in memory",
+		"database.registryWriter / database.saveRegistry":  "periodic best-effort save; the next tick retries",
+	})
 }
